@@ -166,7 +166,11 @@ class Server(object):
         self._check_close_code(reply)
 
     def _encrypt_session(self):
-        if not self.io.encrypt_socket_server(self.context):
+        try:
+            with Timeout(self.command_timeout):
+                if not self.io.encrypt_socket_server(self.context):
+                    return False
+        except Timeout:
             return False
         self._call_custom_handler('TLSHANDSHAKE')
         self._call_custom_handler('TLSHANDSHAKE2', self.io.socket)
